@@ -339,27 +339,46 @@ func (x *Exec) floatBin(st *State, op token.Token, a, b VFlt, resT types.Type, p
 	case token.MUL:
 		return normFlt(term.Mul(a.N, b.N), term.Mul(a.D, b.D))
 	case token.QUO:
-		x.oblige(st, "fdiv0", "", term.Ne(b.N, term.I(0)), pos)
+		// x/0 is +-Inf or NaN in Go, not a panic: the result carries denominator 0 and any
+		// comparison or integer conversion that uses it raises obligation `fnan`
 		n := term.Mul(a.N, b.D)
 		d := term.Mul(a.D, b.N)
 		neg := term.Lt(b.N, term.I(0))
 		return normFlt(term.Ite(neg, term.Neg(n), n), term.Ite(neg, term.Neg(d), d))
 	}
+	// IEEE comparisons incl. infinities (D == 0, sign of N) and NaN (0/0): NaN compares false
+	zero := term.I(0)
+	aFin, bFin := term.Ne(a.D, zero), term.Ne(b.D, zero)
+	aNaN := term.And(term.Eq(a.D, zero), term.Eq(a.N, zero))
+	bNaN := term.And(term.Eq(b.D, zero), term.Eq(b.N, zero))
+	nan := term.Or(aNaN, bNaN)
 	l := term.Mul(a.N, b.D)
 	r := term.Mul(b.N, a.D)
+	lt := func(a, b VFlt, aFin, bFin, fin *T) *T {
+		// a < b
+		return term.Ite(term.And(aFin, bFin), fin,
+			term.Ite(aFin, term.Lt(zero, b.N), // b = +Inf ?
+				term.Ite(bFin, term.Lt(a.N, zero), // a = -Inf ?
+					term.And(term.Lt(a.N, zero), term.Lt(zero, b.N)))))
+	}
+	eq := term.Ite(term.And(aFin, bFin), term.Eq(l, r), term.And(term.Not(aFin), term.Not(bFin), term.Eq(term.Lt(a.N, zero), term.Lt(b.N, zero))))
+	var res *T
 	switch op {
 	case token.EQL:
-		return VT{term.Eq(l, r), resT}
+		res = term.And(term.Not(nan), eq)
 	case token.NEQ:
-		return VT{term.Ne(l, r), resT}
+		res = term.Or(nan, term.Not(eq))
 	case token.LSS:
-		return VT{term.Lt(l, r), resT}
+		res = term.And(term.Not(nan), lt(a, b, aFin, bFin, term.Lt(l, r)))
 	case token.LEQ:
-		return VT{term.Le(l, r), resT}
+		res = term.And(term.Not(nan), term.Or(eq, lt(a, b, aFin, bFin, term.Lt(l, r))))
 	case token.GTR:
-		return VT{term.Lt(r, l), resT}
+		res = term.And(term.Not(nan), lt(b, a, bFin, aFin, term.Lt(r, l)))
 	case token.GEQ:
-		return VT{term.Le(r, l), resT}
+		res = term.And(term.Not(nan), term.Or(eq, lt(b, a, bFin, aFin, term.Lt(r, l))))
+	}
+	if res != nil {
+		return VT{res, resT}
 	}
 	x.fail("unsupported float operator %s", op)
 	return nil
